@@ -176,7 +176,35 @@ def layer_case(depth, planetary, fmt, parallel, part):
                     return
 
 
+def pyramid_route(depth, planetary, part):
+    """Tiles handed out by a Pyramid traversal (what the samplers receive): a pyramid made for one coordinate
+    system, traversed AFTER a second pyramid was made for the other one, still delivers its own system's
+    tiles - all 65 536 pixel centres of each compared."""
+    from toasty import toast
+    from toasty.pyramid import Pyramid
+
+    csn = "planetary" if planetary else "astronomical"
+    first = Pyramid.new_toast(depth, coordsys=cs_of(planetary))
+    Pyramid.new_toast(depth, coordsys=cs_of(not planetary))
+    got = []
+    first.visit_leaves(lambda pos, tile: got.append((tuple(pos), tile)), parallel=1)
+    for pos, tile in got:
+        part.case(nontrivial=True)
+        cfg = {"pos": pos, "coordsys": csn, "pyramid_route": True}
+        lon, lat = toast.toast_tile_get_coords(tile)
+        ref = tg.pixel_grid(pos[0], pos[1], pos[2], planetary)
+        dmax = tg.angdist(tg.vec(lon, lat), ref).max()
+        part.count("pixels_compared", 65536)
+        if dmax > 1e-9:
+            part.violation("pyramid-route/grid-differs-from-deeper-tile-centres/coordsys=%s" % csn, "%r: a pyramid made for the %s system and traversed after a pyramid for the other system was made delivers tile %r whose pixel grid is %.3g rad off" % (cfg, csn, pos, dmax), cfg)
+            return
+
+
 def _c05job(j):
+    if j[0] == "pyramid-route":
+        p = Part()
+        pyramid_route(j[1], j[2], p)
+        return p
     if j[0] == "layer":
         p = Part()
         layer_case(j[1], j[2], j[3], j[4], p)
@@ -211,6 +239,8 @@ def run(tier, seed):
     for i in range(k):
         jobs.append((both[i::k], bool(i % 2), False))
     jobs.append(("depth0",))
+    for planetary in (False, True):
+        jobs.append(("pyramid-route", 1 if tier == "quick" else 2, planetary))
     for depth in (1, 2) if tier == "quick" else (0, 1, 2, 3):
         for planetary in (False, True):
             for fmt in ("npy", "fits"):
@@ -224,7 +254,10 @@ def run(tier, seed):
 
 def replay(payload):
     r = payload["replay"]
-    if r.get("layer"):
+    if r.get("pyramid_route"):
+        p = Part()
+        pyramid_route(r["pos"][0], r["coordsys"] == "planetary", p)
+    elif r.get("layer"):
         p = Part()
         layer_case(r["pos"][0], r["coordsys"] == "planetary", r["format"], r["parallel"], p)
     elif tuple(r["pos"]) == (0, 0, 0):
